@@ -161,6 +161,7 @@ def proof_audit(prop_id, build_rc, build_out, thorough=False):
     if build_rc != 0:
         # the module did not produce an .olean: axioms cannot be printed; the
         # theorems without an error inside are counted as not discharged either
+        # (listed after the ones whose own proof broke)
         for nm in ok_names:
             res["failed"].append((nm, "module failed to build; theorem not re-checked"))
         return res
